@@ -11,6 +11,7 @@ import (
 	"os"
 	"strconv"
 	"strings"
+	"sync/atomic"
 	"syscall"
 	"time"
 	"unsafe"
@@ -455,6 +456,17 @@ func (s *scriptReader) Read(p []byte) (int, error) {
 	s.total += k
 	s.gave += k
 	err := errOfKind(st.Err)
+	if err != nil && k == 0 {
+		if atomic.AddInt32(&failedReadsInCall, 1) > spinLimit {
+			select {
+			case spinCh <- struct{}{}:
+			default:
+			}
+			select {} // park: the call is spinning on a source that has ended (see guarded)
+		}
+	} else {
+		atomic.StoreInt32(&failedReadsInCall, 0)
+	}
 	if !s.quiet {
 		e := Event{"op": "Read", "asked": len(p), "gave": k, "bytes": ints(b), "errkind": st.Err}
 		if s.gc {
@@ -556,6 +568,7 @@ func recNewMnemonic(n int64, lang int64, extra Event) (out string, err error) {
 		call["src_delay_ms"] = srcDelayMs // (a re-execution gives the call an equally slow source)
 	}
 	emit(merge(call, extra))
+	atomic.StoreInt32(&failedReadsInCall, 0)
 	o := guarded(func() { out, err = bip39.NewMnemonic(int(n), bip39.Language(lang)) })
 	if o.panicked && strings.Contains(o.panicTxt, "verif: injected panic") {
 		// the SOURCE panicked (a defect of the caller's reader, not of the library) and the caller recovered, as a
